@@ -27,34 +27,82 @@ EXEMPT_WRITERS = {'MerkleCache.__init__': 'construction', 'MerkleCache.truncate'
 
 
 def rule_truncate(ctx, rule='C11.TRUNCATE'):
+    """Every backup flush truncates the header merkle cache to at most (new height + 1) hashes, and does so only AFTER
+    DB.state has been lowered: header readers clip to DB.state.height, so while it still has the old value a header
+    proof request can read the orphaned headers and re-insert their hashes into an already truncated cache (nothing
+    truncates it again after the last backed-out block)."""
     n = 0
-    f = ctx.func('db', 'DB.backup_fs')
-    cfg = ctx.cfg(f)
-    calls = [c for c in q.own_calls(f) if q.callee_name(ctx, f, c) == 'self.header_mc.truncate']
-    ok, why, wit = False, 'backup_fs does not call self.header_mc.truncate', None
-    if len(calls) == 1 and len(calls[0].args) == 1:
-        try:
-            d = q.lin_sub(q.linear(ctx, f, calls[0].args[0]), {f.params[1]: 1, '': 1})
-            small = set(k for k, v in d.items() if v != 0) <= {''} and d.get('', 0) <= 0
-        except q.NotLinear:
-            small = False
-        p = pr.path_avoiding(cfg, [cfg.entry], [cfg.exit], {cfg.node(q.stmt(calls[0]))})
-        ok = small and p is None
-        why = f'truncate({norm(calls[0].args[0])}) ' + ('keeps more than height + 1 hashes' if not small else 'is skipped on some path')
-        wit = cfg.describe_path(p) if p else None
-    ctx.check(ok, rule, ctx.key(f, None, 'header cache truncated'),
-              'backup_fs truncates the header merkle cache to at most height + 1 hashes on every path',
-              why + ': hashes of orphaned blocks stay in the cache and later header proofs fold to the abandoned chain',
-              witness=wit, loc=ctx.loc(f, f.node))
-    n += 1
     fb = ctx.func('db', 'DB.flush_backup')
-    fcfg = ctx.cfg(fb)
+    cfg = ctx.cfg(fb)
+    fd = fb.params[1]
+    dbrel = ctx.repo.path('db')
+
+    def trunc_calls(g):
+        return [c for c in q.own_calls(g) if q.callee_name(ctx, g, c) == 'self.header_mc.truncate' and len(c.args) == 1]
+
+    def small(g, arg, hexpr):
+        """arg <= hexpr + 1 as linear forms over g's names"""
+        try:
+            d = q.lin_sub(q.linear(ctx, g, arg), q.linear(ctx, g, ast.parse(f'{hexpr} + 1', mode='eval').body))
+            return set(k for k, v in d.items() if v != 0) <= {''} and d.get('', 0) <= 0
+        except q.NotLinear:
+            return False
+    sites = []     # (statement of flush_backup, ok_bound, text)
+    for c in trunc_calls(fb):
+        sites.append((q.stmt(c), small(fb, c.args[0], f'{fd}.state.height'), norm(c)))
+    for e in ctx.cg.callees(fb, ('CALL',)):
+        g, call = e[1], e[3]
+        if g.unit.relpath != dbrel or g.cls != 'DB':
+            continue
+        for c in trunc_calls(g):
+            okb = False
+            for pi, pn in enumerate(g.params[1:]):
+                if pi < len(call.args) and norm(call.args[pi]) == f'{fd}.state.height' and small(g, c.args[0], pn):
+                    okb = True
+            always = pr.path_avoiding(ctx.cfg(g), [ctx.cfg(g).entry], [ctx.cfg(g).exit], {ctx.cfg(g).node(q.stmt(c))}) is None
+            sites.append((q.stmt(call), okb and always, f'{g.qual}: {norm(c)}'))
+    # statements of flush_backup that lower DB.state (assign self.state, directly or in a callee)
+    lowers = []
+    for st in fb.own_nodes():
+        if isinstance(st, ast.Assign) and any(ctx.res.canon(t, fb) == 'self.state' for t in st.targets if isinstance(t, ast.Attribute)):
+            lowers.append(st)
+    for e in ctx.cg.callees(fb, ('CALL',)):
+        g = e[1]
+        if g.unit.relpath == dbrel and g.cls == 'DB' and any(
+                isinstance(st, ast.Assign) and any(isinstance(t, ast.Attribute) and ctx.res.canon(t, g) == 'self.state' for t in st.targets)
+                for st in g.own_nodes()):
+            lowers.append(q.stmt(e[3]))
+    ok, why, wit = False, 'no header_mc.truncate on the backup flush path', None
+    if sites and lowers:
+        tn = {cfg.node(s) for s, _b, _t in sites}
+        ln = {cfg.node(s) for s in lowers}
+        p = pr.path_avoiding(cfg, [cfg.entry], [cfg.exit], tn)
+        bound = all(b for _s, b, _t in sites)
+        early = pr.path_avoiding(cfg, [cfg.entry], list(tn), ln)
+        ok = p is None and bound and early is None
+        if not bound:
+            why = 'the truncation keeps more than (new height + 1) hashes: ' + '; '.join(t for _s, b, t in sites if not b)
+        elif p is not None:
+            why, wit = 'a backup flush can complete without truncating the header cache', cfg.describe_path(p)
+        else:
+            why, wit = ('the header cache is truncated before DB.state is lowered: until the state is lowered readers still fetch '
+                        'the orphaned headers (they clip to DB.state.height) and a header proof served in that window puts the '
+                        'orphaned hash back into the truncated cache'), (cfg.describe_path(early) if early else None)
+    elif sites:
+        why = 'flush_backup does not lower DB.state'
+    ctx.check(ok, rule, ctx.key(fb, None, 'header cache truncated after the state is lowered'),
+              'every backup flush truncates the header merkle cache to at most new height + 1 hashes, after DB.state was lowered',
+              why + ': hashes of orphaned blocks stay in the cache and later header proofs fold to the abandoned chain',
+              witness=wit, loc=ctx.loc(fb, fb.node))
+    n += 1
+    # pointers: backup_fs is called with the new (lower) height on every backup flush
+    f = ctx.func('db', 'DB.backup_fs')
     cs = q.calls_resolving_to(ctx, fb, f)
-    ok = len(cs) == 1 and norm(cs[0].args[0]) == 'flush_data.state.height' and \
-        pr.path_avoiding(fcfg, [fcfg.entry], [fcfg.exit], {fcfg.node(q.stmt(cs[0]))}) is None
+    ok = len(cs) == 1 and norm(cs[0].args[0]) == f'{fd}.state.height' and \
+        pr.path_avoiding(cfg, [cfg.entry], [cfg.exit], {cfg.node(q.stmt(cs[0]))}) is None
     ctx.check(ok, rule, ctx.key(fb, None, 'backup_fs on every backup flush'),
               'every backup flush calls backup_fs with the new (lower) height',
-              'a backup flush can complete without backup_fs(new height): the header cache is not truncated', loc=ctx.loc(fb, fb.node))
+              'a backup flush can complete without backup_fs(new height)', loc=ctx.loc(fb, fb.node))
     return n + 1
 
 
